@@ -314,7 +314,11 @@ func (c *c01Comp) feed(sc SingleChannelCache, o c01Op) (rows []c01Row, ok bool) 
 	ctx, cancel := context.WithCancel(c.ctx)
 	defer cancel()
 	// a loop that never advances may also emit nothing (every row suppressed): stop it after a while
-	watchdog := time.AfterFunc(5*time.Second, func() { c.runaway = true; cancel() })
+	wd := 3 * time.Second
+	if c01FeedRunaways >= 3 { // already reported: a run normally takes microseconds, do not spend the budget on a broken loop
+		wd = 50 * time.Millisecond
+	}
+	watchdog := time.AfterFunc(wd, func() { c.runaway = true; cancel() })
 	defer watchdog.Stop()
 	q0 := c.qh.queries
 	h0 := c01Stats.ChannelCacheHits.Value() + c01Stats.ChannelCacheMisses.Value()
@@ -352,6 +356,7 @@ func (c *c01Comp) feed(sc SingleChannelCache, o c01Op) (rows []c01Row, ok bool) 
 }
 
 var c01FeedRuns, c01FeedRunsPaged, c01SysBypass int64
+var c01SysStuck, c01FeedRunaways int
 
 func c01NotDocs(ds []uint64, l []c01E) []c01E {
 	out := l[:0:0]
@@ -435,6 +440,9 @@ func (c *c01Comp) apply(o c01Op) c01Obs {
 			c.hitBackfill = true
 		}
 		ob := c01Obs{VF: c.cache.validFrom, Logs: c01FromLogs(c.cache.logs), Out: "RFeed " + c01RowsCoq(fr), FRows: fr, Err: !ok && !c.runaway, Runaway: c.runaway}
+		if c.runaway {
+			c01FeedRunaways++
+		}
 		c.runaway = false
 		if c.cache.validFrom > c.vf0 {
 			c.hitPrune = true
@@ -1707,10 +1715,13 @@ func (s *c01Sys) run(q c01Req) ([]c01Row, bool) {
 	for _, c := range q.Chans {
 		set[c] = struct{}{}
 	}
+	if c01SysStuck >= 2 { // one-shot requests do not terminate: reported twice, do not spend the whole budget waiting
+		return nil, false
+	}
 	ctx, cancel := context.WithCancel(s.ctx)
 	defer cancel()
 	stopped := false
-	watchdog := time.AfterFunc(30*time.Second, func() { stopped = true; cancel() }) // a one-shot request that never ends
+	watchdog := time.AfterFunc(20*time.Second, func() { stopped = true; cancel() }) // a one-shot request that never ends
 	defer watchdog.Stop()
 	feed, err := col.MultiChangesFeed(ctx, set, ChangesOptions{Since: q.Since, Limit: q.Limit, ActiveOnly: q.AO, ChangesCtx: ctx})
 	if err != nil || feed == nil {
@@ -1720,7 +1731,9 @@ func (s *c01Sys) run(q c01Req) ([]c01Row, bool) {
 	ok := true
 	defer func() {
 		if stopped {
-			s.fail("changes.request_does_not_terminate", "one-shot", map[string]any{"history": s.histDesc(), "request": q.String(), "cache": s.cfg}, "a one-shot request had not finished after 30 s and was cancelled by the harness")
+			c01SysStuck++
+			s.failed["changes.error_entry"+"feed"] = true // the cancelled request is reported once, as what it is
+			s.fail("changes.request_does_not_terminate", "one-shot", map[string]any{"history": s.histDesc(), "request": q.String(), "cache": s.cfg}, "a one-shot request had not finished after 20 s (or had sent 10000 rows) and was cancelled by the harness")
 		}
 	}()
 	for e := range feed {
